@@ -32,6 +32,8 @@ def plan(tier, seed):
             for n in range(0, maxn + 1):
                 if tier == 'quick' and ((ic and n < 2) or (n == 4 and gn not in ('choice', 'closure', 'memo_prefix'))):
                     continue
+                if tier == 'quick' and ic and n == 3 and gn not in ('closure', 'memo_prefix'):
+                    continue        # case folding on symbolic text costs about 1 s per path: two grammars at length 3 in the quick tier
                 directives = directive + ('@@ignorecase :: True\n' if ic else '')
                 spec = {'grammar': gn, 'rules': rules, 'n': n, 'directives': directives, 'decorators': {r: ['name'] for r in name_rules},
                         'ref': {'keywords': kws, 'name_rules': name_rules, 'ignorecase': ic}, 'gen': True, 'warm': WARM}
@@ -40,15 +42,17 @@ def plan(tier, seed):
                     # stated: at length >= 4 the code points are restricted to the keyword alphabet, one other letter, upper case I F, space and '!'
                     pre = alpha_pre(n, 'ifaxy IF!b')
                 obs.append(Ob(name=f'{gn}_{"ic" if ic else "cs"}_L{n}', factory='vt.pegbody:make_peg', spec=spec, params=[(f'c{i}', 0, UNI) for i in range(n)],
-                              budget=BUDGET[n], group='ignorecase' if ic else 'case', extra_pre=pre))
+                              budget=BUDGET[n] * (3 if ic and n <= 2 else 1) + (120 if ic and n == 3 else 0), group='ignorecase' if ic else 'case', extra_pre=pre))
                 # reference-free pair: without @name the grammar accepts a superset and agrees wherever the value is not a keyword
             # ignorecase given at PARSE time instead of as a directive (the keyword table must be folded for that parse)
             if ic and gn in ('choice', 'closure', 'named_value'):
-                for n in (2, 3):
+                for n in ((2, 3) if gn == 'closure' or tier != 'quick' else (2,)):
                     spec = {'grammar': gn, 'rules': rules, 'n': n, 'directives': directive, 'decorators': {r: ['name'] for r in name_rules}, 'settings': {'ignorecase': True},
                             'ref': {'keywords': kws, 'name_rules': name_rules, 'ignorecase': True}, 'gen': True, 'warm': WARM}
                     obs.append(Ob(name=f'{gn}_ic-at-parse-time_L{n}', factory='vt.pegbody:make_peg', spec=spec, params=[(f'c{i}', 0, UNI) for i in range(n)],
-                                  budget=BUDGET[n], group='ignorecase-setting'))
+                                  budget=BUDGET[n] * 3 if n == 2 else BUDGET[n] + 120, group='ignorecase-setting', extra_pre=''))
+            if tier == 'quick' and ic and gn not in ('closure',):
+                continue
             spec2 = {'grammar': gn, 'ic': ic, 'n': 3}
             obs.append(Ob(name=f'{gn}_{"ic" if ic else "cs"}_undecorated_L3', factory='vt.props.c11:make_undecorated', spec=spec2,
                           params=[(f'c{i}', 0, UNI) for i in range(3)], budget=300, group='undecorated'))
@@ -63,7 +67,7 @@ def plan(tier, seed):
                        '@name accepts every text the decorated grammar accepts with the same AST, and the decorated grammar never returns a keyword from a @name rule.',
         'functions_encoded': ['tatsu.contexts.engine:ParserEngine.semantics_call/validate_is_not_keyword', 'tatsu.peg.base:Grammar.__init__ (keyword normalisation)', 'tatsu.config:ParserConfig',
                               'tatsu.ngcodegen.ngparser_gen:gen_keywords (generated KEYWORDS table, executed)', 'tatsu.contexts.decorator:name'],
-        'bounds': f'{len(GRAMMARS)} grammars x ignorecase on/off, model and generated parser; text length 0..3 over all Unicode, (thorough) 4..{maxn} over the alphabet "ifaxyb IF!" (stated)',
+        'bounds': f'{len(GRAMMARS)} grammars x ignorecase on/off, model and generated parser; text length 0..3 over all Unicode (under ignorecase: 0..2 over all Unicode, 3 over the alphabet), (thorough) 4..{maxn} over the alphabet "ifaxyb IF!" (stated)',
         'outside': 'longer texts; keywords added through the API instead of directives; @name with semantic actions',
         'assumptions': ['vt/refpeg.py keyword rule: str(value) (upper-cased under ignorecase) in the keyword set'],
     }
